@@ -215,6 +215,12 @@ def run(ctx):
                 r = X.apply_op(L0, op)
                 if r is not None and r.rc != 0:
                     raise RuntimeError("init failed: %r\n%s" % (op, r.text()))
+                if op[0] == "cmd":
+                    # the shared oracle after every command of the preparation (parity of synced stripes, and the books: `rehash`
+                    # must leave check times, bad marks and never-scrubbed marks alone - plan 'new' and 'bad' depend on them)
+                    for o in X.c06(L0, " ".join(map(str, op))):
+                        ctx.violation("C04/prepare/%s" % o["kind"], "%s in %s after %s" % (o["kind"], cfg.short(), o.get("where")),
+                                      dict(cfg=cfg.describe(), prepare=True, violation=o))
             saved = L0.save()
             c = L0.content()
             cfgx = L0.cfg
@@ -265,6 +271,16 @@ def run(ctx):
 
 def replay(r):
     cfg = Config.from_dict(r["cfg"])
+    if r.get("prepare"):
+        with labmod.Lab(cfg) as L0:
+            bad = []
+            for op in init_ops(cfg):
+                X.apply_op(L0, op)
+                if op[0] == "cmd":
+                    bad += X.c06(L0, " ".join(map(str, op)))
+        for o in bad:
+            print("  ", o)
+        return not bad
     with labmod.Lab(cfg) as L0:
         for op in init_ops(cfg):
             X.apply_op(L0, op)
